@@ -55,7 +55,7 @@ def tokens (s : String) : Option (List Int) := parseAll parseInt? (words s)
 def intOp (code : Nat) : List Int → Int
   | l => match code with
     | 0 => first l
-    | 1 => l.foldl (· + ·) 0
+    | 1 => sumOp 0 l
     | 2 => match l with | [] => 0 | a :: t => t.foldl min a
     | _ => match l with | [] => 0 | a :: t => t.foldl max a
 
@@ -100,8 +100,6 @@ def geoOf : Nat → Option Geo
   | 0 => some .iso2 | 1 => some .aniso2 | 2 => some .iso3 | 3 => some .aniso3 | _ => none
 def fnOf : Nat → Option Fn
   | 0 => some .gauss | 1 => some .ring | _ => none
-
-def fsum (l : List Float) : Float := l.foldl (· + ·) 0.0
 
 structure RawCluster where
   indices : List Nat
@@ -172,7 +170,7 @@ def lsqP : P String := do
     -- result = params.copy(); result[indices] = rows of the cluster   (L311, L335-337)
     let result : Array (List Float) := (raws.zip cls).foldl (fun acc (rc, c) =>
       (rc.indices.zip (gradRows g fn nd c)).foldl (fun a (i, row) => a.setIfInBounds i row) acc) rowsA
-    match pack fsum G modes (transpose nvars result.toList) with
+    match pack (sumOp (0.0 : Float)) G modes (transpose nvars result.toList) with
     | none => pure "err=pack"
     | some jv =>
       let jac := jv.map (· / norm)
